@@ -93,7 +93,44 @@ def _part_problems(s, counts, expected=None):
     return probs
 
 
+def _cached(tag, fn):
+    """The family searches below are deterministic functions of the source tree; a failing check replays the same search
+    once per refuted obligation, so the printed result is memoised per (tag, content of sample.py/points.py)."""
+    import hashlib, os, io, contextlib, nutils
+    d = os.path.dirname(nutils.__file__)
+    h = hashlib.sha1(tag.encode())
+    for f in ('sample.py', 'points.py', 'pointsseq.py'):
+        h.update(open(os.path.join(d, f), 'rb').read())
+    h.update(open(__file__, 'rb').read())
+    cdir = os.path.join(os.path.expanduser('~'), '.cache', 'verif-scratch', 'c09-replay-cache')
+    path = os.path.join(cdir, h.hexdigest())
+    try:
+        print(open(path).read(), end='')
+        return
+    except OSError:
+        pass
+    buf = io.StringIO()
+    with contextlib.redirect_stdout(buf):
+        fn()
+    print(buf.getvalue(), end='')
+    try:
+        os.makedirs(cdir, exist_ok=True)
+        tmp = path + '.%d' % os.getpid()
+        open(tmp, 'w').write(buf.getvalue())
+        os.replace(tmp, path)
+    except OSError:
+        pass
+
+
 def part(kind, clause=''):
+    _cached('part:' + kind, lambda: _part(kind, 'any'))
+
+
+def twin(kind):
+    _cached('twin:' + kind, lambda: _twin(kind))
+
+
+def _part(kind, clause=''):
     """Native replay for the partition contracts: the solver's model talks about abstract operands (uninterpreted cnt/idx),
     so instead of mapping it a small concrete family of real samples of the class is searched for a PART violation."""
     from nutils import sample, types
@@ -138,8 +175,8 @@ def part(kind, clause=''):
             cases.append(('counts=%s' % counts, probs))
     elif kind in ('_Add', '_Mul', '_Zip'):
         ops2 = _operands('X' if kind == '_Add' else 'Y', rng)
-        for s1, c1 in ops1[:6]:
-            for s2, c2 in ops2[:8]:
+        for s1, c1 in ops1[:4]:
+            for s2, c2 in (ops2[:4] if kind != '_Zip' else ops2):
                 try:
                     i1, i2 = [s1.getindex(e).tolist() for e in range(s1.nelems)], [s2.getindex(e).tolist() for e in range(s2.nelems)]
                     if kind == '_Add':
@@ -196,3 +233,61 @@ def _report(kind, clause, failing, ncases=1):
         print('REPLAY: VIOLATION-CONFIRMED %s.getindex does not partition range(npoints) in the documented order' % kind)
     else:
         print('REPLAY: not reproduced on the small family')
+
+
+def _twin(kind):
+    """get_evaluable_indices(ielem), compiled and evaluated, must give getindex(ielem) (up to the reshape to point axes)."""
+    from nutils import sample, evaluable, types
+    rng = numpy.random.RandomState(2)
+    if kind == '_Empty':
+        v = evaluable.compile(sample.Sample.empty(('X', 'Y'), 2).get_evaluable_indices(evaluable.constant(0)))({})
+        if numpy.asarray(v).size != 0:
+            print('REPLAY: VIOLATION-CONFIRMED _Empty.get_evaluable_indices evaluates to a non-empty array', numpy.asarray(v).shape)
+        else:
+            print('REPLAY: not reproduced')
+        return
+    ops1, ops2 = _operands('X', rng), _operands('Y', rng)
+    cands = []
+    if kind in ('_DefaultIndex', '_CustomIndex'):
+        cands = [s for s, c in ops1 if type(s).__name__ == kind]
+    elif kind == '_Mul':
+        cands = [sample._Mul(a, b) for a, _ in ops1[:4] for b, _ in ops2[:4]]
+    elif kind == '_Zip':
+        cands = [sample._Zip(a, b) for a, _ in ops1 for b, _ in ops2 if a.npoints == b.npoints]
+    elif kind == '_TakeElements':
+        cands = [sample._TakeElements(a, types.arraydata(numpy.array(ind))) for a, _ in ops1[:4] for ind in ([0], [a.nelems - 1, 0])]
+    n = 0
+    for s in cands:
+        try:
+            f = evaluable.compile(s.get_evaluable_indices(evaluable.InRange(evaluable.Argument('ielem', (), int), evaluable.constant(s.nelems))))
+            for e in range(s.nelems):
+                n += 1
+                got, want = numpy.asarray(f(dict(ielem=e))), numpy.asarray(s.getindex(e))
+                if got.ravel().tolist() != want.tolist():
+                    print('%s element %d: get_evaluable_indices evaluates to %s, getindex returns %s' % (kind, e, got.tolist(), want.tolist()))
+                    print('REPLAY: VIOLATION-CONFIRMED evaluation scatters points to other positions than Sample.index advertises')
+                    return
+        except Exception as ex:
+            print('%s: %s: %s' % (kind, type(ex).__name__, ex))
+            print('REPLAY: VIOLATION-CONFIRMED get_evaluable_indices fails on a valid sample')
+            return
+    print('compared %d elements of %d %s samples' % (n, len(cands), kind))
+    print('REPLAY: not reproduced on the small family')
+
+
+def transform_weights():
+    """TransformPoints.weights on a reflected and stretched line / square: weights must be w * |det|."""
+    from nutils import points, transform, element
+    for ref, A in [(element.getsimplex(1), [[-2.]]), (element.getsimplex(1) ** 2, [[0., 3.], [1., 0.]]), (element.getsimplex(2), [[.5, 0.], [0., .5]])]:
+        p = ref.getpoints('gauss', 3)
+        A = numpy.array(A)
+        from nutils import types
+        t = transform.Square(types.arraydata(A), types.arraydata(numpy.zeros(len(A))))
+        tp = points.TransformPoints(p, t)
+        want = numpy.asarray(p.weights) * abs(numpy.linalg.det(A))
+        got = numpy.asarray(tp.weights)
+        if got.shape != want.shape or not numpy.allclose(got, want, atol=1e-14):
+            print('matrix %s: weights %s, expected w*|det| = %s' % (A.tolist(), got.tolist(), want.tolist()))
+            print('REPLAY: VIOLATION-CONFIRMED transformed weights are not the original weights times |det|')
+            return
+    print('REPLAY: not reproduced')
